@@ -6,7 +6,7 @@
    Statements only; proofs in Proofs/KVProofs.v, Proofs/BasisTheory.v (and Proofs/GenProofs.v). *)
 From Coq Require Import QArith List Bool Arith.
 From NurbsV Require Import Base.Res Base.QList Spec.KnotSpec Spec.BSpline Model.KV.
-From NurbsV Require Import Proofs.KVProofs Proofs.KVMachine Proofs.BasisTheory.
+From NurbsV Require Import Proofs.KVProofs Proofs.KVMachine Proofs.BasisTheory Proofs.GenProofs.
 Import ListNotations.
 Open Scope Q_scope.
 
@@ -46,6 +46,194 @@ Theorem C18_basis_affine_invariant : forall (U : nat -> Q) (a c : Q), 0 < c ->
   forall n u j i, N (fun i => c * U i + a) n j i (c * u + a) == N U n j i u.
 Proof. exact N_affine. Qed.
 Print Assumptions C18_basis_affine_invariant.
+
+(* ---- exact degree, npts, spacing, limits; totality; affine structure and basis invariance (Proofs/GenProofs.v) ---- *)
+Theorem C18_bezier :
+  forall (p : nat) (k : kv),
+       gen_bezier p = Ok k ->
+       kdeg k = p /\
+       knpts k = (p + 1)%nat /\
+       kvec k = repeat 0 (p + 1) ++ repeat 1 (p + 1) /\ umin_of (kvec k) p == 0 /\ umax_of (kvec k) p == 1.
+Proof. exact gen_bezier_struct. Qed.
+Print Assumptions C18_bezier.
+
+Theorem C18_bezier_total :
+  forall p : nat, gen_bezier p = Ok {| kvec := repeat 0 (p + 1) ++ repeat 1 (p + 1); kdeg := p |}.
+Proof. exact gen_bezier_total. Qed.
+Print Assumptions C18_bezier_total.
+
+Theorem C18_integer :
+  forall (p n : nat) (k : kv),
+       gen_integer p n = Ok k ->
+       kdeg k = p /\
+       knpts k = n /\ (forall i : nat, (i <= n - p)%nat -> nthq (kvec k) (p + i) == inject_Z (Z.of_nat i)).
+Proof. exact gen_integer_struct. Qed.
+Print Assumptions C18_integer.
+
+Theorem C18_integer_total :
+  forall p n : nat, (p < n)%nat -> gen_integer p n = Ok {| kvec := integer_vec p n; kdeg := p |}.
+Proof. exact gen_integer_total. Qed.
+Print Assumptions C18_integer_total.
+
+Theorem C18_integer_refuses :
+  forall p n : nat, (n <= p)%nat -> gen_integer p n = Err AssertionError.
+Proof. exact gen_integer_refuses. Qed.
+Print Assumptions C18_integer_refuses.
+
+Theorem C18_uniform :
+  forall (p n : nat) (k : kv),
+       gen_uniform p n = Ok k ->
+       kdeg k = p /\
+       knpts k = n /\
+       umin_of (kvec k) (kdeg k) == 0 /\
+       umax_of (kvec k) (kdeg k) == 1 /\
+       (forall i : nat,
+        (i <= n - p)%nat -> nthq (kvec k) (p + i) == inject_Z (Z.of_nat i) / inject_Z (Z.of_nat (n - p))).
+Proof. exact gen_uniform_struct. Qed.
+Print Assumptions C18_uniform.
+
+Theorem C18_uniform_total :
+  forall p n : nat, (p < n)%nat -> exists k : kv, gen_uniform p n = Ok k.
+Proof. exact gen_uniform_total. Qed.
+Print Assumptions C18_uniform_total.
+
+Theorem C18_weight :
+  forall (p : nat) (ws : list Q) (k : kv),
+       gen_weight p ws = Ok k ->
+       Forall (fun w : Q => 0 < w) ws ->
+       kdeg k = p /\
+       knpts k = (p + length ws)%nat /\
+       (forall i : nat,
+        (i < length ws)%nat -> nthq (kvec k) (p + i + 1) - nthq (kvec k) (p + i) == nth i ws 0).
+Proof. exact gen_weight_full. Qed.
+Print Assumptions C18_weight.
+
+Theorem C18_weight_total :
+  forall (p : nat) (ws : list Q),
+       ws <> [] ->
+       Forall (fun w : Q => 0 < w) ws -> gen_weight p ws = Ok {| kvec := weight_vec p ws; kdeg := p |}.
+Proof. exact gen_weight_total. Qed.
+Print Assumptions C18_weight_total.
+
+Theorem C18_random :
+  forall (p : nat) (ws : list Q) (k : kv),
+       gen_random_from p ws = Ok k ->
+       Forall (fun w : Q => 0 < w) ws ->
+       kdeg k = p /\
+       knpts k = (p + length ws)%nat /\ umin_of (kvec k) (kdeg k) == 0 /\ umax_of (kvec k) (kdeg k) == 1.
+Proof. exact gen_random_from_struct. Qed.
+Print Assumptions C18_random.
+
+Theorem C18_random_limits :
+  forall (p : nat) (ws : list Q) (k : kv),
+       gen_random_from p ws = Ok k -> umin_of (kvec k) (kdeg k) == 0 /\ umax_of (kvec k) (kdeg k) == 1.
+Proof. exact gen_random_from_limits. Qed.
+Print Assumptions C18_random_limits.
+
+Theorem C18_random_total :
+  forall (p : nat) (ws : list Q),
+       ws <> [] -> Forall (fun w : Q => 0 < w) ws -> exists k : kv, gen_random_from p ws = Ok k.
+Proof. exact gen_random_from_total. Qed.
+Print Assumptions C18_random_total.
+
+Theorem C18_shift :
+  forall (k : kv) (a : Q) (k' : kv),
+       kshift k a = Ok k' ->
+       kvec k' = map (fun x : Q => Qred (x + a)) (kvec k) /\
+       (WF (kvec k) (kdeg k) ->
+        kdeg k' = kdeg k /\
+        knpts k' = knpts k /\ (forall x : Q, count_q (Qred (x + a)) (kvec k') = count_q x (kvec k))).
+Proof. exact kshift_full. Qed.
+Print Assumptions C18_shift.
+
+Theorem C18_shift_total :
+  forall (k : kv) (a : Q),
+       WF (kvec k) (kdeg k) ->
+       kshift k a = Ok {| kvec := map (fun x : Q => Qred (x + a)) (kvec k); kdeg := kdeg k |}.
+Proof. exact kshift_total. Qed.
+Print Assumptions C18_shift_total.
+
+Theorem C18_scale :
+  forall (k : kv) (s : Q) (k' : kv),
+       kscale k s = Ok k' ->
+       0 < s /\
+       kvec k' = map (fun x : Q => Qred (x * s)) (kvec k) /\
+       (WF (kvec k) (kdeg k) ->
+        kdeg k' = kdeg k /\
+        knpts k' = knpts k /\ (forall x : Q, count_q (Qred (x * s)) (kvec k') = count_q x (kvec k))).
+Proof. exact kscale_full. Qed.
+Print Assumptions C18_scale.
+
+Theorem C18_scale_total :
+  forall (k : kv) (s : Q),
+       WF (kvec k) (kdeg k) ->
+       0 < s -> kscale k s = Ok {| kvec := map (fun x : Q => Qred (x * s)) (kvec k); kdeg := kdeg k |}.
+Proof. exact kscale_total. Qed.
+Print Assumptions C18_scale_total.
+
+Theorem C18_normalize_vec :
+  forall k k' : kv,
+       knormalize k = Ok k' ->
+       Forall2 Qeq (kvec k')
+         (map (fun x : Q => (x - first_q (kvec k)) / (last_q (kvec k) - first_q (kvec k))) (kvec k)).
+Proof. exact knormalize_vec. Qed.
+Print Assumptions C18_normalize_vec.
+
+Theorem C18_normalize_limits :
+  forall k k' : kv,
+       knormalize k = Ok k' -> umin_of (kvec k') (kdeg k') == 0 /\ umax_of (kvec k') (kdeg k') == 1.
+Proof. exact knormalize_limits. Qed.
+Print Assumptions C18_normalize_limits.
+
+Theorem C18_normalize_struct :
+  forall k k' : kv,
+       knormalize k = Ok k' ->
+       WF (kvec k) (kdeg k) ->
+       kdeg k' = kdeg k /\
+       knpts k' = knpts k /\
+       (forall x : Q,
+        count_q ((x - first_q (kvec k)) / (last_q (kvec k) - first_q (kvec k))) (kvec k') =
+        count_q x (kvec k)) /\ umin_of (kvec k') (kdeg k') == 0 /\ umax_of (kvec k') (kdeg k') == 1.
+Proof. exact knormalize_struct. Qed.
+Print Assumptions C18_normalize_struct.
+
+Theorem C18_normalize_total :
+  forall k : kv, WF (kvec k) (kdeg k) -> exists k' : kv, knormalize k = Ok k'.
+Proof. exact knormalize_total. Qed.
+Print Assumptions C18_normalize_total.
+
+Theorem C18_shift_basis :
+  forall (k : kv) (a : Q) (k' : kv) (p j i : nat) (u : Q),
+       kshift k a = Ok k' -> Nspec (kvec k') p j i (u + a) == Nspec (kvec k) p j i u.
+Proof. exact kshift_basis. Qed.
+Print Assumptions C18_shift_basis.
+
+Theorem C18_scale_basis :
+  forall (k : kv) (s : Q) (k' : kv) (p j i : nat) (u : Q),
+       kscale k s = Ok k' -> Nspec (kvec k') p j i (u * s) == Nspec (kvec k) p j i u.
+Proof. exact kscale_basis. Qed.
+Print Assumptions C18_scale_basis.
+
+Theorem C18_normalize_basis :
+  forall (k k' : kv) (p j i : nat) (u : Q),
+       knormalize k = Ok k' ->
+       Nspec (kvec k') p j i ((u - first_q (kvec k)) / (last_q (kvec k) - first_q (kvec k))) ==
+       Nspec (kvec k) p j i u.
+Proof. exact knormalize_basis. Qed.
+Print Assumptions C18_normalize_basis.
+
+Theorem C18_curve_affine :
+  forall (c a : Q) (U : list Q) (p : nat) (P : list Q) (u : Q),
+       0 < c ->
+       U <> [] -> curve_spec1 (map (fun x : Q => Qred (c * x + a)) U) p P (c * u + a) == curve_spec1 U p P u.
+Proof. exact curve_spec1_affine. Qed.
+Print Assumptions C18_curve_affine.
+
+Theorem C18_make_iff_wf :
+  forall (v : list Q) (k : kv), make v None = Ok k <-> WF v (kdeg k) /\ kvec k = v.
+Proof. exact make_iff_wf. Qed.
+Print Assumptions C18_make_iff_wf.
+
 
 Example C18_nonvacuous : gen_uniform 2 5 = Ok (mkkv [0; 0; 0; 1#3; 2#3; 1; 1; 1] 2).
 Proof. vm_compute. reflexivity. Qed.
